@@ -85,6 +85,9 @@ var cleanups []func()
 
 // CleanupAll removes the scratch copies made by Normalize.
 func CleanupAll() {
+	if os.Getenv("GBNORM_KEEP") != "" {
+		return
+	}
 	for _, c := range cleanups {
 		c()
 	}
